@@ -47,6 +47,8 @@ fn identity_rule(text: &str, class: &str, ws: &[CW], a: &mut Acc) {
         o => { a.viols.push(Viol { key: format!("{}|compile-crash|{}", class, text), desc: o.crash_desc().unwrap(), case: json!({"kind": "identity", "rule": text}) }); return; }
     };
     for w in ws {
+        // length is a three-way distinction (short / long / overlong): a run of four or more copies is outside the table, so length alphas are not claimed on it
+        if class.starts_with("alpha-l") && w.iter().any(|sy| sy.segs.windows(4).any(|p| p[0] == p[1] && p[1] == p[2] && p[2] == p[3])) { continue; }
         a.evals += 1;
         let got = guarded(budget_for(12, text.chars().count()), || av::apply_group(&compiled, 0, word_of(w)).map(|x| cw_of(&x)).map_err(|e| format!("{:?}", e)));
         match got {
